@@ -242,12 +242,13 @@ def consKindToString : ConsKind → String
 def consOfJson (j : Json) : ConsDef :=
   { kind := ((getStr j "kind").bind consKindOfString).getD .check
     name := getStr j "name", table := getStrD j "table", schema := getStr j "schema"
-    body := getStrD j "body", deferrable := getBool j "deferrable", initially := getStr j "initially" }
+    body := getStrD j "body", deferrable := getBool j "deferrable", initially := getStr j "initially",
+    refSchema := getStr j "refSchema" }
 
 def consJ (c : ConsDef) : Json :=
   obj [("kind", Json.str (consKindToString c.kind)), ("name", optStrJ c.name), ("table", Json.str c.table),
        ("schema", optStrJ c.schema), ("body", Json.str c.body), ("deferrable", optBoolJ c.deferrable),
-       ("initially", optStrJ c.initially)]
+       ("initially", optStrJ c.initially), ("refSchema", optStrJ c.refSchema)]
 
 def ixOfJson (j : Json) : IndexDef :=
   { name := getStr j "name", table := getStrD j "table", schema := getStr j "schema",
